@@ -66,8 +66,7 @@ Fixpoint init_gates (Sg : list (string * (nat * nat))) (G : list (string * idef)
   | GOpaque _ _ _ :: _ => None                (* "opaque is not a valid QASM command" (raised in the final pass) *)
   | GDef n d :: items' =>
       match init_body Sg (gd_params d) (gd_qubits d) (gd_body d) with
-      | Some [] => None                       (* "opaque gate ... not allowed": no gate inside *)
-      | Some body => init_gates ((n, (length (gd_params d), length (gd_qubits d))) :: Sg)
+      | Some body =>                          (* a body without gate applications is the identity *) init_gates ((n, (length (gd_params d), length (gd_qubits d))) :: Sg)
                                 ((n, mkIdef (gd_params d) (gd_qubits d) body) :: G) items'
       | None => None
       end
